@@ -846,6 +846,207 @@ theorem askGlyphs_eq_preloaded (T : GlyphTables) (gloc glat : List Nat) (ng : Na
     rw [askGlyph_eq_preloaded T gloc glat ng gs bs hg hb gid, ih]
     rfl
 
+/-- a table set whose `Glat` carries boxes is a version 3 `Glat` -/
+theorem readGlyphTables_boxes {gloc glat : List Nat} {ngg : Nat} {T : GlyphTables} (h : readGlyphTables gloc glat ngg = .ok (some T))
+    (hb : T.hasBoxes = true) : ∃ gv, be32 glat 0 = .ok gv ∧ gv ≥ 0x00030000 := by
+  unfold readGlyphTables at h
+  simp only [bind, Except.bind, pure, Except.pure] at h
+  by_cases h0 : gloc.length < 8
+  · rw [if_pos h0] at h; cases h
+  rw [if_neg h0] at h
+  cases e1 : be32 gloc 0 with
+  | error f => rw [e1] at h; cases h
+  | ok version =>
+  rw [e1] at h; simp only [] at h
+  cases e2 : be16 gloc 4 with
+  | error f => rw [e2] at h; cases h
+  | ok flags =>
+  rw [e2] at h; simp only [] at h
+  cases e3 : be16 gloc 6 with
+  | error f => rw [e3] at h; cases h
+  | ok numAttrs =>
+  rw [e3] at h; simp only [] at h
+  split at h
+  · cases h
+  · cases e4 : be32 glat 0 with
+    | error f => rw [e4] at h; cases h
+    | ok gv =>
+    rw [e4] at h; simp only [] at h
+    split at h
+    · cases h
+    · split at h
+      · rename_i h3
+        refine ⟨gv, rfl, ?_⟩
+        unfold s32 at h3
+        split at h3
+        · omega
+        · omega
+      · simp only [Except.ok.injEq, Option.some.injEq] at h
+        rw [← h] at hb
+        cases hb
+
+/-- **a glyph that `read_glyph` accepted has a box `read_box` accepts** (version 3 `Glat`): the octabox header `read_glyph` steps over –
+bitmap, slant box, sub-boxes – and the attribute entry behind it are exactly what `read_box` needs inside the glyph's range.  So the
+preloading constructor, which has read every glyph before it reads the boxes, never meets a box it cannot read: its error path
+(`free(boxes)` with the cells of `_boxes` already filled) is unreachable. -/
+theorem readBox_of_readGlyph (T : GlyphTables) (gloc glat : List Nat) (gid : Nat) (hgid : gid < T.numGlyphsAttr)
+    {gv : Nat} (hv : be32 glat 0 = .ok gv) (h3 : gv ≥ 0x00030000) {g : Sparse × Nat}
+    (hg : readGlyphAttrs T gloc glat gid = .ok (some g)) : ∃ b, readBoxBytes T gloc glat gid = .ok (some b) := by
+  unfold readGlyphAttrs at hg
+  simp only [bind, Except.bind, pure, Except.pure] at hg
+  cases e1 : glocPair T gloc gid with
+  | error f => rw [e1] at hg; cases hg
+  | ok r1 =>
+  rw [e1] at hg
+  cases r1 with
+  | none => cases hg
+  | some se =>
+  obtain ⟨glocs, gloce⟩ := se
+  simp only [] at hg
+  by_cases c0 : glocs ≥ glat.length - 1 ∨ gloce > glat.length
+  · rw [if_pos c0] at hg; cases hg
+  rw [if_neg c0, hv] at hg
+  simp only [] at hg
+  unfold boxHeader at hg
+  rw [if_pos h3] at hg
+  by_cases c1 : glocs ≥ gloce
+  · rw [if_pos c1] at hg; cases hg
+  rw [if_neg c1] at hg
+  cases e2 : be16 glat glocs with
+  | error f => rw [e2] at hg; cases hg
+  | ok bmap =>
+  rw [e2] at hg
+  simp only [] at hg
+  by_cases c2 : glocs + 6 + 8 * popcount16 bmap > gloce
+  · rw [if_pos c2] at hg; cases hg
+  rw [if_neg c2] at hg
+  simp only [] at hg
+  by_cases c3 : gloce < glocs + 6 + 8 * popcount16 bmap
+  · rw [if_pos c3] at hg; cases hg
+  rw [if_neg c3] at hg
+  by_cases c4 : gloce - (glocs + 6 + 8 * popcount16 bmap) < (if decide (gv ≥ 0x00020000) = true then 6 else 4) ∨
+      gloce - (glocs + 6 + 8 * popcount16 bmap) > T.numAttrs * (if decide (gv ≥ 0x00020000) = true then 6 else 4)
+  · rw [if_pos c4] at hg; cases hg
+  -- the raw offsets are the tested ones
+  have hraw : glocPairRaw T gloc gid = .ok (glocs, gloce) := by
+    unfold glocPair at e1
+    unfold glocPairRaw
+    simp only [bind, Except.bind, pure, Except.pure] at e1
+    by_cases hl : T.longFmt = true
+    · simp only [hl, if_true] at e1 ⊢
+      split at e1
+      · cases e1
+      · cases ea : be32 gloc (8 + gid * 4) with
+        | error f => rw [ea] at e1; cases e1
+        | ok a =>
+          rw [ea] at e1; simp only [] at e1
+          cases eb : be32 gloc (8 + (gid + 1) * 4) with
+          | error f => rw [eb] at e1; cases e1
+          | ok b => rw [eb] at e1; simp only [Except.ok.injEq, Option.some.injEq, Prod.mk.injEq] at e1; rw [e1.1, e1.2]
+    · simp only [hl, Bool.false_eq_true, if_false] at e1 ⊢
+      split at e1
+      · cases e1
+      · cases ea : be16 gloc (8 + gid * 2) with
+        | error f => rw [ea] at e1; cases e1
+        | ok a =>
+          rw [ea] at e1; simp only [] at e1
+          cases eb : be16 gloc (8 + (gid + 1) * 2) with
+          | error f => rw [eb] at e1; cases e1
+          | ok b => rw [eb] at e1; simp only [Except.ok.injEq, Option.some.injEq, Prod.mk.injEq] at e1; rw [e1.1, e1.2]
+  have hunit : 4 ≤ (if decide (gv ≥ 0x00020000) = true then 6 else 4) := by split <;> omega
+  unfold readBoxBytes
+  simp only [bind, Except.bind, pure, Except.pure]
+  rw [if_neg (by omega), hraw]
+  simp only []
+  rw [if_neg (by omega), e2]
+  simp only []
+  obtain ⟨v4, e4⟩ := readU8s_ok glat 4 (glocs + 2) (by omega)
+  rw [e4]
+  simp only []
+  rw [if_neg (by omega)]
+  obtain ⟨vs, es⟩ := readU8s_ok glat (popcount16 bmap * 8) (glocs + 6) (by omega)
+  rw [es]
+  exact ⟨_, rfl⟩
+
+/-- `maxp` never names more glyphs than `Gloc` has attributes for, in a table set the loader accepts -/
+theorem readGlyphTables_count {gloc glat : List Nat} {ngg : Nat} {T : GlyphTables} (h : readGlyphTables gloc glat ngg = .ok (some T)) :
+    ngg ≤ T.numGlyphsAttr := by
+  unfold readGlyphTables at h
+  simp only [bind, Except.bind, pure, Except.pure] at h
+  by_cases h0 : gloc.length < 8
+  · rw [if_pos h0] at h; cases h
+  rw [if_neg h0] at h
+  cases e1 : be32 gloc 0 with
+  | error f => rw [e1] at h; cases h
+  | ok version =>
+  rw [e1] at h; simp only [] at h
+  cases e2 : be16 gloc 4 with
+  | error f => rw [e2] at h; cases h
+  | ok flags =>
+  rw [e2] at h; simp only [] at h
+  cases e3 : be16 gloc 6 with
+  | error f => rw [e3] at h; cases h
+  | ok numAttrs =>
+  rw [e3] at h; simp only [] at h
+  split at h
+  · cases h
+  · rename_i hc
+    cases e4 : be32 glat 0 with
+    | error f => rw [e4] at h; cases h
+    | ok gv =>
+    rw [e4] at h; simp only [] at h
+    split at h
+    · cases h
+    · split at h
+      · cases e5 : be32 glat 4 with
+        | error f => rw [e5] at h; cases h
+        | ok fl =>
+          rw [e5] at h
+          simp only [Except.ok.injEq, Option.some.injEq] at h
+          rw [← h]
+          simp only []
+          omega
+      · simp only [Except.ok.injEq, Option.some.injEq] at h
+        rw [← h]
+        simp only []
+        omega
+
+/-- the preloading constructor, having read every glyph, can read every box -/
+theorem preloadBoxes_of_preloadGlyphs (T : GlyphTables) (gloc glat : List Nat) {gv : Nat} (hv : be32 glat 0 = .ok gv) (h3 : gv ≥ 0x00030000) :
+    ∀ (n gid0 : Nat) (gs : List (Sparse × Nat)), gid0 + n ≤ T.numGlyphsAttr → preloadGlyphs T gloc glat n gid0 = .ok (some gs) →
+      ∃ bs, preloadBoxes T gloc glat n gid0 = .ok (some bs) := by
+  intro n
+  induction n with
+  | zero => intro gid0 gs _ _; exact ⟨[], rfl⟩
+  | succ n ih =>
+    intro gid0 gs hb h
+    unfold preloadGlyphs at h
+    simp only [bind, Except.bind, pure, Except.pure] at h
+    cases h1 : readGlyph T gloc glat gid0 with
+    | error e => rw [h1] at h; cases h
+    | ok r1 =>
+      rw [h1] at h
+      cases r1 with
+      | none => cases h
+      | some g =>
+        simp only [] at h
+        cases h2 : preloadGlyphs T gloc glat n (gid0 + 1) with
+        | error e => rw [h2] at h; cases h
+        | ok r2 =>
+          rw [h2] at h
+          cases r2 with
+          | none => cases h
+          | some rest =>
+            obtain ⟨bs, hbs⟩ := ih (gid0 + 1) rest (by omega) h2
+            have hg : readGlyphAttrs T gloc glat gid0 = .ok (some g) := by
+              unfold readGlyph at h1
+              rw [if_pos (by omega)] at h1
+              exact h1
+            obtain ⟨b, hb'⟩ := readBox_of_readGlyph T gloc glat gid0 (by omega) hv h3 hg
+            unfold preloadBoxes
+            simp only [bind, Except.bind, pure, Except.pure, hb', hbs]
+            exact ⟨_, rfl⟩
+
 /-- **`gr_face_preloadGlyphs` changes no glyph**: on tables from which the preloading constructor can build a cache, and whose boxes (if
 the Glat table carries boxes) can all be read, the cache that loads on demand answers every sequence of glyph requests exactly as the
 preloaded one does -/
@@ -907,5 +1108,28 @@ theorem glyphCache_preload_eq_lazy (gloc glat : List Nat) (ngg : Nat) (gids : Li
             apply List.map_congr_left
             intro gid _
             cases gs[gid]? <;> rfl
+
+/-- **`gr_face_preloadGlyphs` changes no glyph and no box, on any font**: whenever the preloading constructor builds a cache at all, the
+cache that loads on demand answers every sequence of glyph requests exactly as the preloaded one does – the hypothesis "every box can be
+read" of `glyphCache_preload_eq_lazy` follows from the glyphs having been read -/
+theorem glyphCache_preload_eq_lazy' (gloc glat : List Nat) (ngg : Nat) (gids : List Nat) (cp : GlyphCacheM)
+    (hp : glyphCache gloc glat ngg true gids = .ok (some cp)) : glyphCache gloc glat ngg false gids = .ok (some cp) := by
+  refine glyphCache_preload_eq_lazy gloc glat ngg gids cp hp (fun T ht hbx => ?_)
+  obtain ⟨gv, hv, h3⟩ := readGlyphTables_boxes ht hbx
+  have hcnt := readGlyphTables_count ht
+  -- the preloading constructor read every glyph
+  unfold glyphCache at hp
+  simp only [bind, Except.bind, pure, Except.pure, ht] at hp
+  by_cases h0 : max ngg T.numGlyphsAttr = 0
+  · rw [if_pos h0] at hp; cases hp
+  rw [if_neg h0] at hp
+  simp only [if_true] at hp
+  cases hg : preloadGlyphs T gloc glat (max ngg T.numGlyphsAttr) 0 with
+  | error e => rw [hg] at hp; cases hp
+  | ok rg =>
+    rw [hg] at hp
+    cases rg with
+    | none => cases hp
+    | some gs => exact preloadBoxes_of_preloadGlyphs T gloc glat hv h3 _ 0 gs (by omega) hg
 
 end GrVerif.Loader
